@@ -251,6 +251,66 @@ def run_histories(ctx, out):
         out.sample(dict(kind="history", base=repr(base), driver=driver, pre=pre, steps=hist), limit=8)
         shutil.rmtree(d, ignore_errors=True)
 
+    # ---- ONE run over several sources, some of which are themselves NAMED like numbered backups (an editor's f.~1~, a tree
+    #      that was once a backup target): the number for each overwrite must exceed every number present AT THAT MOMENT,
+    #      including files this very run has just copied in — nothing read earlier may be reused
+    nm = 10 if quick else 120
+    for k in range(nm):
+        d = os.path.join(d0, "multi%d" % k)
+        srcd, dstd = os.path.join(d, "s"), os.path.join(d, "t")
+        os.makedirs(srcd)
+        os.makedirs(dstd)
+        driver = rng.choice(["parfile", "parblock"])
+        # the operations of one run are applied one after the other here (one parfile worker; parblock's single dispatcher):
+        # the property quantifies over histories, not over races between two workers naming a backup and creating that name
+        w = 1 if driver == "parfile" else rng.choice([1, 2, 4])
+        names = ["a", "f", "g"]
+        for nme in names:
+            open(os.path.join(dstd, nme), "wb").write(b"old %s\n" % nme.encode())
+        srcs = {}
+        for nme in names:
+            srcs[nme] = b"new %s\n" % nme.encode() * 3
+        for base in rng.sample(["f", "g", "a"], rng.choice([1, 2])):
+            for n in rng.sample([1, 2, 3], rng.choice([1, 2])):
+                srcs["%s.~%d~" % (base, n)] = b"editor backup %d of %s\n" % (n, base.encode())
+        for nme, c in srcs.items():
+            open(os.path.join(srcd, nme), "wb").write(c)
+        order = sorted(srcs)
+        rng.shuffle(order)
+        if rng.random() < 0.5:
+            order = ["a"] + [x for x in order if x != "a"]           # an unrelated overwrite first
+        form = rng.choice(["args", "args", "tree"])
+        before = dir_state(dstd)
+        if form == "args":
+            argv = [ctx.bins["xcp"], "--driver", driver, "-w", str(w), "--backup", "numbered"] + [os.path.join("s", x) for x in order] + ["t"]
+        else:
+            argv = [ctx.bins["xcp"], "-r", "-T", "--driver", driver, "-w", str(w), "--backup", "numbered", "s", "t"]
+        r = xcp.run_plain(argv, d)
+        after = dir_state(dstd)
+        rep = dict(kind="several-sources-with-backup-like-names", argv=argv, order=order, driver=driver, workers=w, exit=r.exit,
+                   before=sorted(repr(x) for x in before), after={repr(x): after[x][:40].decode("latin-1") for x in sorted(after)}, stderr=r.stderr[-300:])
+        out.case(("multi", k, driver, w, form, tuple(order)), nontrivial=True)
+        out.count("multi_source_backup_names")
+        if r.exit == 0:
+            problem = None
+            # every source arrived under its own name
+            for nme, c in srcs.items():
+                if after.get(os.fsencode(nme)) != c:
+                    problem = "%s does not hold what was copied to it (it holds %r)" % (nme, (after.get(os.fsencode(nme)) or b"<missing>")[:30])
+                    break
+            # every old version survives under SOME name of the directory (a backup, or — when a copied-in f.~N~ later
+            # displaced it — the backup of that backup): no version is lost; all contents here are distinct
+            if not problem:
+                held = list(after.values())
+                for nme in names:
+                    old = before[os.fsencode(nme)]
+                    if held.count(old) != 1:
+                        problem = "the old version of %s survives %d times" % (nme, held.count(old))
+                        break
+            if problem:
+                out.violation("one run over sources with backup-like names: " + problem, rep)
+        shutil.rmtree(d, ignore_errors=True)
+
     # ---- the destination cannot be opened for writing (it is a program being executed: ETXTBSY, which also stops root):
     #      a numbered / auto overwrite renames it away first, so the history still holds; -f / --force must not change that
     import subprocess
@@ -404,6 +464,7 @@ def run(ctx, out):
                 "trailing-dot, non-UTF-8, huge/overflowing/zero-padded/non-ASCII-digit numbers; (b) next_backup_num/has_backup "
                 "on real directories with gaps, large numbers, look-alikes; (c) histories of 2-6 real xcp copies with changing "
                 "content and mode none/auto/numbered, names reached through a directory copy so non-UTF-8 names occur; (c') histories "
+                "in ONE run over several sources some of which are named like numbered backups (f.~1~ copied in, then f overwritten); (c'') histories "
                 "whose destination is a program BEING EXECUTED (cannot be opened for writing), with and without -f/--force; "
                 "(d) SIGKILL before/after every mutating call of one overwrite. non-trivial = candidate is a real backup or "
                 "shares the first byte / directory holds a backup / step overwrites an existing file; distinct by input")
